@@ -484,6 +484,9 @@ pub fn subjects() -> Vec<Subject> {
     slice_subject!("slice_cip_str_opt", SliceRegion<Cip<StringRegion>, IndexOptimized>, String, cmp_caps);
     slice_subject!("slice_cip_str_list", SliceRegion<Cip<StringRegion>, IList>, String, cmp_caps);
     slice_subject!("slice_opt_str", SliceRegion<OptionRegion<StringRegion>>, Option<String>, cmp_caps);
+    // the inner index IS the value: arbitrary usize sequences reach the index container through a region
+    slice_subject!("slice_mirror_usize_opt", SliceRegion<MirrorRegion<usize>, IndexOptimized>, usize, cmp_caps);
+    slice_subject!("slice_mirror_usize_list", SliceRegion<MirrorRegion<usize>, IList>, usize, cmp_caps);
     {
         // bench composition: the &&str form is not offered (no `&&str: PartialEq<&str>`)
         type T = SliceRegion<CollapseSequence<Cip<StringRegion>>, IndexOptimized>;
@@ -579,6 +582,7 @@ pub fn subjects() -> Vec<Subject> {
     bytes_like_subject!("collapse_owned_f64", CollapseSequence<OwnedRegion<f64>>, f64, reserve: false);
     bytes_like_subject!("cip_owned_u8", Cip<OwnedRegion<u8>>, u8, reserve: true);
     bytes_like_subject!("cip_owned_unit_list", Cip<OwnedRegion<()>, IList>, (), reserve: true);
+    bytes_like_subject!("cip_owned_unit_opt", Cip<OwnedRegion<()>, IndexOptimized>, (), reserve: true);
     {
         type T = CollapseSequence<MirrorRegion<u8>>;
         let mut c = Caps::<T>::default();
